@@ -18,12 +18,15 @@ import (
 	"go/types"
 	"math/rand"
 	"os"
+	"path/filepath"
 	"sort"
 	"strconv"
 	"strings"
 
 	"verif/harness/internal/filt"
 	"verif/harness/internal/hutil"
+
+	"github.com/quasilyte/go-ruleguard/ruleguard"
 )
 
 const W = 64
@@ -77,34 +80,80 @@ var siteSpecs = []siteSpec{
 	{"gv", "func() int {\n\t\treturn 1\n\t}()", []string{"1"}, false},
 }
 
-func targetSource() string {
+// detachedSpecs: the probe sites of the targets whose bytes the engine cannot (fully) read back from the file system.
+// The captures are spelled the way gofmt would not spell them, so that a capture's Text -- which is then what go/printer
+// makes of the node, the same string the report message interpolates -- differs from the source extent of the node in
+// length and in content; gofmt-shaped twins stand next to them.
+var detachedSpecs = []siteSpec{
+	{"g( 1,2 )", "g(1, 2)", nil, false},
+	{"a+b", "a  +  b", []string{"a+b", "a  +  b"}, false},
+	{"a + b", "a +b", nil, false},
+	{"gv", "( gv )", []string{"( 7 )", "gv"}, false},
+	{"[]int{1,2}", "[]int{ 1, 2 }", nil, false},
+	{"K+1", "8", []string{"K +1", "8"}, false},
+	{"- 3", "-3", nil, false},
+	{"a\t+ b", "a + b", nil, false},
+	{"struct{}{}", "[ 0 ]int{}", []string{"struct{ }{ }"}, false},
+	{"f0( )", "7", []string{"f0( )"}, false},
+	{"\"abc\"", "KS", nil, false},
+	{"s . a", "s.a", nil, true},
+	{"g(1,\n\t\t2)", "gv", nil, false},
+	{"'a'", "97", []string{"'a'", "0x61"}, false},
+	{"uint8( 200 )", "200", nil, false},
+	{"1<<40", "1 << 40", nil, false},
+}
+
+// targetSource renders a target file: one row of W probe calls per site spec. rowStart[i] is the byte offset at which
+// the rows of site i begin. A detached target also spells the probe calls themselves in two non-gofmt ways.
+func targetSource(specs []siteSpec, detached bool) (string, []int) {
 	var sb strings.Builder
-	sb.WriteString("package target\n\ntype S struct {\n\ta int\n\tb string\n}\ntype Big [40]int64\ntype MyInt int\n\nvar gv = 3\nvar gs = \"abc\"\n\nconst K = 7\nconst KS = \"abc\"\n\nfunc f0() int { return gv }\n\n")
+	sb.WriteString("package target\n\ntype S struct {\n\ta int\n\tb string\n}\ntype Big [40]int64\ntype MyInt int\n\nvar gv = 3\nvar gs = \"abc\"\n\nconst K = 7\nconst KS = \"abc\"\n\nfunc f0() int { return gv }\n\nfunc g(a, b int) int { return a + b }\n\n")
 	for j := 0; j < W; j++ {
 		fmt.Fprintf(&sb, "func p%d(a, b interface{}, rest ...interface{}) {}\n", j)
 	}
-	sb.WriteString("\nfunc sites[T any, U ~int64](t T, u U, arr []int, s S) {\n\tx0 := 5\n\t_ = x0\n")
-	for _, sp := range siteSpecs {
+	sb.WriteString("\nfunc sites[T any, U ~int64](t T, u U, arr []int, s S) {\n\tx0 := 5\n\t_ = x0\n\ta, b := 1, 2\n\t_, _ = a, b\n")
+	var rowStart []int
+	for i, sp := range specs {
+		rowStart = append(rowStart, sb.Len())
+		open, sep, close := "(", ", ", ")"
+		if detached {
+			if i%2 == 0 {
+				sep = ","
+			} else {
+				open, sep, close = "( ", " , ", " )"
+			}
+		}
 		for j := 0; j < W; j++ {
-			args := sp.x + ", "
+			args := sp.x + sep
 			if sp.multi {
 				args = sp.x + ",\n\t\t"
 			}
 			args += sp.y
 			for _, r := range sp.rest {
-				args += ", " + r
+				args += sep + r
 			}
 			if j%8 == 0 {
 				sb.WriteString("\n\t")
 			} else {
 				sb.WriteString("; ")
 			}
-			fmt.Fprintf(&sb, "p%d(%s)", j, args)
+			fmt.Fprintf(&sb, "p%d%s%s%s", j, open, args, close)
 		}
 		sb.WriteString("\n")
 	}
+	rowStart = append(rowStart, sb.Len())
 	sb.WriteString("}\n")
-	return sb.String()
+	return sb.String(), rowStart
+}
+
+// tgt: one analysed file. Site indices are global: the sites of a later target follow those of the earlier ones.
+type tgt struct {
+	name  string // disk: the file system holds the analysed bytes; mem: nothing at that path; stale: a shorter, older version
+	t     *hutil.Target
+	specs []siteSpec
+	base  int
+	byPos map[int]*filt.Site
+	byJ   map[int][]*filt.Site
 }
 
 // ---------------------------------------------------------------- facts (the independent oracle: go/types + source text)
@@ -127,6 +176,12 @@ type siteFacts struct {
 	LineM int    `json:"line_m"` // the whole match ($$): the probe call
 	TextM string `json:"text_m"`
 	Rest  []val  `json:"rest"`
+	// Text*: the text the engine itself reports for the capture (`$x` in a report message). Src*: the bytes of the node's
+	// source extent; they differ where the engine cannot read the file back and prints the node instead.
+	Target string `json:"target"`
+	SrcX   string `json:"src_x"`
+	SrcY   string `json:"src_y"`
+	SrcM   string `json:"src_m"`
 }
 
 func valOf(t *hutil.Target, sizes types.Sizes, e ast.Expr) val {
@@ -357,11 +412,15 @@ type ruleCase struct {
 	Tree       *otree            `json:"tree,omitempty"`
 	Alone      *aloneRes         `json:"alone,omitempty"`
 	Values     map[string]string `json:"values,omitempty"`
-	d          *filt.DExpr
-	whereSrc   string // the Where() argument as written, when it is not d.Go() (a call of a group-local macro)
-	solo       bool   // run in its own engine (may panic or may fail to load)
-	wantJ      int    // probe function the rule is bound to (members of a law family share it: same site facts)
-	group      string // rules with the same group key share an engine
+	// MayRefuse: a literal of the group's macro body is not a decimal number / a plainly quoted string: the group means the
+	// literal's Go value or is refused at load. Left: refused alone, so left out of the family's common engine.
+	MayRefuse bool `json:"may_refuse,omitempty"`
+	Left      bool `json:"left_out,omitempty"`
+	d         *filt.DExpr
+	whereSrc  string // the Where() argument as written, when it is not d.Go() (a call of a group-local macro)
+	solo      bool   // run in its own engine (may panic or may fail to load)
+	wantJ     int    // probe function the rule is bound to (members of a law family share it: same site facts)
+	group     string // rules with the same group key share an engine
 }
 
 // ---------------------------------------------------------------- shared-spelling families
@@ -518,6 +577,117 @@ func literal(d *filt.DExpr) *filt.DExpr {
 	return &c
 }
 
+// ---- literal spellings inside a local macro body
+//
+// irconv expands a group-local predicate function by copying its body; go/types knows nothing about the copy, so the
+// constant value of every literal in it is re-created from the literal's spelling. Whatever the spelling, the literal must
+// mean its Go value (or the group must be refused): 0644 is 420, 0x1F is 31, 1_000 is 1000, 'a' is 97, `a\d` is a\d.
+
+const nIntStyles = 7
+
+// spellInt: a Go literal of value z >= 0. 0 decimal, 1 legacy octal, 2 0o octal, 3 binary, 4 hexadecimal, 5 with
+// underscores, 6 a character literal.
+func spellInt(z int64, style int, rng *rand.Rand) string {
+	switch style {
+	case 1:
+		return "0" + strconv.FormatInt(z, 8)
+	case 2:
+		return []string{"0o", "0O"}[rng.Intn(2)] + strconv.FormatInt(z, 8)
+	case 3:
+		return []string{"0b", "0B"}[rng.Intn(2)] + strconv.FormatInt(z, 2)
+	case 4:
+		h := strconv.FormatInt(z, 16)
+		if rng.Intn(2) == 0 {
+			return "0X" + strings.ToUpper(h)
+		}
+		return "0x" + h
+	case 5:
+		if d := strconv.FormatInt(z, 10); len(d) >= 2 {
+			k := 1 + rng.Intn(len(d)-1)
+			return d[:k] + "_" + d[k:]
+		}
+		return []string{"0x_", "0_", "0o_", "0b_"}[rng.Intn(4)] + map[bool]string{true: strconv.FormatInt(z, 2), false: strconv.FormatInt(z, 8)}[z < 2]
+	case 6:
+		switch {
+		case z >= 32 && z < 127 && z != '\'' && z != '\\' && rng.Intn(3) > 0:
+			return "'" + string(rune(z)) + "'"
+		case z < 256 && rng.Intn(2) == 0:
+			return fmt.Sprintf("'\\x%02x'", z)
+		case z < 256:
+			return fmt.Sprintf("'\\%03o'", z)
+		case z < 0xD800 || z >= 0xE000 && z < 0x10000:
+			return fmt.Sprintf("'\\u%04x'", z)
+		case z >= 0x10000 && z < 0x110000:
+			return fmt.Sprintf("'\\U%08x'", z)
+		}
+		return "0x" + strconv.FormatInt(z, 16) // not a character
+	}
+	return strconv.FormatInt(z, 10)
+}
+
+// spellStr: a Go string literal of value v. 0 interpreted, plain; 1 raw; 2 interpreted, with escapes.
+func spellStr(v string, style int) string {
+	switch style {
+	case 1:
+		if !strings.ContainsAny(v, "`\r") {
+			return "`" + v + "`"
+		}
+	case 2:
+		var sb strings.Builder
+		sb.WriteByte('"')
+		for i := 0; i < len(v); i++ {
+			switch {
+			case i%3 == 0:
+				fmt.Fprintf(&sb, "\\x%02x", v[i])
+			case i%3 == 1 && v[i] < 0x80:
+				fmt.Fprintf(&sb, "\\u%04x", v[i])
+			default:
+				fmt.Fprintf(&sb, "\\%03o", v[i])
+			}
+		}
+		sb.WriteByte('"')
+		return sb.String()
+	}
+	return strconv.Quote(v)
+}
+
+// respell: the instantiated tree with every constant written as a literal in a style of pick's choosing; spelled receives
+// name -> literal for the constants that came from a name. plain: every literal is decimal resp. plainly quoted.
+func respell(d *filt.DExpr, rng *rand.Rand, pick func(isStr bool) int, spelled map[string]string) (out *filt.DExpr, plain bool) {
+	if d == nil {
+		return nil, true
+	}
+	c := *d
+	plain = true
+	if d.K == "int" || d.K == "str" {
+		lit := ""
+		if d.K == "int" {
+			lit = spellInt(d.Z, pick(false), rng)
+			plain = lit == strconv.FormatInt(d.Z, 10)
+		} else {
+			lit = spellStr(d.S, pick(true))
+			plain = lit == strconv.Quote(d.S)
+		}
+		if d.Raw != "" {
+			spelled[d.Raw] = lit
+		}
+		c.Raw = lit
+		return &c, plain
+	}
+	var p bool
+	c.X, p = respell(d.X, rng, pick, spelled)
+	plain = plain && p
+	c.Y, p = respell(d.Y, rng, pick, spelled)
+	plain = plain && p
+	c.Args = nil
+	for _, a := range d.Args {
+		ra, p := respell(a, rng, pick, spelled)
+		plain = plain && p
+		c.Args = append(c.Args, ra)
+	}
+	return &c, plain
+}
+
 var mirrorTok = map[string]string{"LSS": "GTR", "GTR": "LSS", "LEQ": "GEQ", "GEQ": "LEQ", "EQL": "EQL", "NEQ": "NEQ"}
 
 func kindOfOperand(d *filt.DExpr) int {
@@ -581,35 +751,123 @@ func main() {
 	enc := json.NewEncoder(os.Stdout)
 	rng := rand.New(rand.NewSource(*seed))
 
-	t, err := hutil.CheckTarget(*tmp, "target/target.go", []byte(targetSource()))
-	if err != nil {
-		fmt.Fprintln(os.Stderr, err)
-		os.Exit(3)
+	// ---- the analysed files: one whose bytes are on disk, one that exists in memory only, one whose saved version is an
+	// older, shorter one (the engine slices the captures that lie inside it and prints the others)
+	var tgts []*tgt
+	nSites := 0
+	addTarget := func(name string, specs []siteSpec, t *hutil.Target, err error) {
+		if err != nil {
+			fmt.Fprintln(os.Stderr, err)
+			os.Exit(3)
+		}
+		tg := &tgt{name: name, t: t, specs: specs, base: nSites}
+		tg.byPos, tg.byJ = filt.IndexSites(t)
+		for j := 0; j < W; j++ {
+			if len(tg.byJ[j]) != len(specs) {
+				fmt.Fprintf(os.Stderr, "site index broken: %s p%d has %d sites\n", name, j, len(tg.byJ[j]))
+				os.Exit(3)
+			}
+		}
+		nSites += len(specs)
+		tgts = append(tgts, tg)
 	}
-	_, byJ := filt.IndexSites(t)
-	byPos, _ := filt.IndexSites(t)
+	diskSrc, _ := targetSource(siteSpecs, false)
+	t, err := hutil.CheckTarget(*tmp, "target/target.go", []byte(diskSrc))
+	addTarget("disk", siteSpecs, t, err)
+	detSrc, rowStart := targetSource(detachedSpecs, true)
+	mt, err := filt.CheckDetachedTarget(filepath.Join(*tmp, "detached", "never_saved.go"), []byte(detSrc), nil)
+	addTarget("mem", detachedSpecs, mt, err)
+	st, err := filt.CheckDetachedTarget(filepath.Join(*tmp, "detached", "older_on_disk.go"), []byte(detSrc), []byte(detSrc[:rowStart[len(detachedSpecs)/2]]))
+	addTarget("stale", detachedSpecs, st, err)
+
+	// runTargets runs the engine over the targets in order (one sequence of matches: a panic ends it)
+	runTargets := func(e *ruleguard.Engine, sink func(r hutil.Report, j, site int)) string {
+		for _, tg := range tgts {
+			reports, pmsg := hutil.Run(e, tg.t, 0, "", nil)
+			for _, r := range reports {
+				s := tg.byPos[r.Pos]
+				if s == nil {
+					fmt.Fprintf(os.Stderr, "report cannot be attributed: %s %+v\n", tg.name, r)
+					os.Exit(3)
+				}
+				sink(r, s.J, tg.base+s.I)
+			}
+			if pmsg != "" {
+				return pmsg
+			}
+		}
+		return ""
+	}
+
+	// what the engine itself says the text of each capture is: `$x`, `$y`, `$$` interpolated into a report message
+	const textSep = " <|> "
+	engineText := map[[2]int][]string{}
+	{
+		rules := make([]filt.Rule, W)
+		for j := range rules {
+			rules[j] = filt.Rule{Name: fmt.Sprintf("t%d", j), Pattern: fmt.Sprintf("p%d($x, $y, $*zs)", j), Report: "$x" + textSep + "$y" + textSep + "$$"}
+		}
+		e, lerr := filt.Load(t.Fset, filt.RulesFile("", rules))
+		if lerr != nil {
+			fmt.Fprintln(os.Stderr, "text probe rules:", lerr)
+			os.Exit(3)
+		}
+		pmsg := runTargets(e, func(r hutil.Report, j, site int) {
+			parts := strings.Split(r.Message, textSep)
+			if len(parts) != 3 || r.Group != fmt.Sprintf("t%d", j) {
+				fmt.Fprintf(os.Stderr, "text probe: unexpected report %+v\n", r)
+				os.Exit(3)
+			}
+			engineText[[2]int{site, j}] = parts
+		})
+		if pmsg != "" {
+			fmt.Fprintln(os.Stderr, "text probe rules panic:", pmsg)
+			os.Exit(3)
+		}
+	}
+
 	sizes := types.SizesFor("gc", "amd64")
 	lineSet := map[int]bool{}
 	textSet := map[string]bool{}
 	factsAt := map[[2]int]siteFacts{}
-	for j := 0; j < W; j++ {
-		if len(byJ[j]) != len(siteSpecs) {
-			fmt.Fprintf(os.Stderr, "site index broken: p%d has %d sites\n", j, len(byJ[j]))
-			os.Exit(3)
-		}
-		for _, s := range byJ[j] {
-			x, y := s.Call.Args[0], s.Call.Args[1]
-			f := siteFacts{K: "site", I: s.I, J: j, LineX: t.Fset.Position(x.Pos()).Line, LineY: t.Fset.Position(y.Pos()).Line,
-				X: valOf(t, sizes, x), Y: valOf(t, sizes, y), TextX: filt.Text(t, x), TextY: filt.Text(t, y), Rest: []val{},
-				LineM: t.Fset.Position(s.Call.Pos()).Line, TextM: filt.Text(t, s.Call)}
-			for _, r := range s.Call.Args[2:] {
-				f.Rest = append(f.Rest, valOf(t, sizes, r))
+	type respelt struct {
+		v, text string
+	}
+	var respelled []respelt // captures whose Text is not their source spelling
+	for _, tg := range tgts {
+		t := tg.t
+		for j := 0; j < W; j++ {
+			for _, s := range tg.byJ[j] {
+				x, y := s.Call.Args[0], s.Call.Args[1]
+				et := engineText[[2]int{tg.base + s.I, j}]
+				if et == nil {
+					fmt.Fprintf(os.Stderr, "text probe: no report for site %d of %s p%d\n", s.I, tg.name, j)
+					os.Exit(3)
+				}
+				f := siteFacts{K: "site", I: tg.base + s.I, J: j, LineX: t.Fset.Position(x.Pos()).Line, LineY: t.Fset.Position(y.Pos()).Line,
+					X: valOf(t, sizes, x), Y: valOf(t, sizes, y), TextX: et[0], TextY: et[1], Rest: []val{},
+					LineM: t.Fset.Position(s.Call.Pos()).Line, TextM: et[2],
+					Target: tg.name, SrcX: filt.Text(t, x), SrcY: filt.Text(t, y), SrcM: filt.Text(t, s.Call)}
+				for _, r := range s.Call.Args[2:] {
+					f.Rest = append(f.Rest, valOf(t, sizes, r))
+				}
+				enc.Encode(f)
+				factsAt[[2]int{f.I, j}] = f
+				lineSet[f.LineX] = true
+				textSet[f.TextX] = true
+				textSet[f.TextY] = true
+				if j == 0 {
+					// the source spellings are constants too: where the Text is something else they must not compare equal
+					textSet[f.SrcX] = true
+					textSet[f.SrcY] = true
+					if f.TextX != f.SrcX && !strings.ContainsAny(f.TextX, "`\n") {
+						respelled = append(respelled, respelt{"x", f.TextX})
+					}
+					if f.TextY != f.SrcY && !strings.ContainsAny(f.TextY, "`\n") {
+						respelled = append(respelled, respelt{"y", f.TextY})
+					}
+				}
 			}
-			enc.Encode(f)
-			factsAt[[2]int{s.I, j}] = f
-			lineSet[f.LineX] = true
-			textSet[f.TextX] = true
-			textSet[f.TextY] = true
 		}
 	}
 	g := &gen{rng: rng, atoms: atomPool(), nbase: len(baseAtoms())}
@@ -672,6 +930,11 @@ func main() {
 			v = "$$"
 		}
 		c := g.constFor(kind)
+		if kind == 3 && (f/4)%2 == 0 && len(respelled) > 0 {
+			// a capture whose Text is not its source spelling (the engine printed the node); the constant is that Text
+			r := respelled[rng.Intn(len(respelled))]
+			v, c = r.v, filt.Str(r.text)
+		}
 		if kind == 0 {
 			// a line of this family's own probe column; every third family aims at a capture spanning several lines
 			si := rng.Intn(len(siteSpecs))
@@ -745,7 +1008,7 @@ func main() {
 	var sizePool, numPool []int64
 	{
 		ss, ns := map[int64]bool{}, map[int64]bool{}
-		for i := range siteSpecs {
+		for i := 0; i < nSites; i++ {
 			fa := factsAt[[2]int{i, 0}]
 			for _, v := range []val{fa.X, fa.Y} {
 				if v.Size != nil {
@@ -770,13 +1033,16 @@ func main() {
 	valueFor := func(name string, j int) nval {
 		switch name {
 		case "ln":
-			fa := factsAt[[2]int{rng.Intn(len(siteSpecs)), j}]
+			fa := factsAt[[2]int{rng.Intn(nSites), j}]
 			return nval{z: int64(fa.LineX + rng.Intn(3) - 1)}
 		case "limit":
 			return nval{z: sizePool[rng.Intn(len(sizePool))]}
 		case "num":
 			return nval{z: numPool[rng.Intn(len(numPool))]}
 		case "name":
+			if len(respelled) > 0 && rng.Intn(2) == 0 {
+				return nval{s: respelled[rng.Intn(len(respelled))].text, str: true}
+			}
 			return nval{s: g.texts[rng.Intn(len(g.texts))], str: true}
 		}
 		for _, na := range namedAtoms {
@@ -809,12 +1075,30 @@ func main() {
 	for _, a := range namedAtoms {
 		bare = append(bare, filt.Call(a.path, a.v, filt.RawStr(a.name, "")))
 	}
-	for f := 0; f < len(bare)+*nshared; f++ {
+	// families whose groups reach the filter through a local macro and spell its literals in the six non-decimal ways
+	// (member k in style k) resp. as raw / escaped strings; every other one negates the macro call
+	maclit := []*filt.DExpr{
+		filt.Bin("EQL", operand(2, "x"), filt.RawInt("num", 0)),
+		filt.Bin("EQL", operand(1, "y"), filt.RawInt("limit", 0)),
+		filt.Bin("LEQ", operand(0, "x"), filt.RawInt("ln", 0)),
+		filt.Bin("NEQ", filt.RawInt("num", 0), operand(2, "y")),
+		filt.Bin("EQL", operand(3, "x"), filt.RawStr("name", "")),
+		filt.Call("Text.Matches", "y", filt.RawStr("pat", "")),
+		filt.And(filt.Bin("GEQ", operand(2, "zs"), filt.RawInt("num", 0)), filt.Not(filt.Paren(filt.Bin("LSS", operand(1, "x"), filt.RawInt("limit", 0))))),
+	}
+	styledInt := []int{1, 2, 4, 3, 5, 6}
+	styledStr := []int{1, 2, 1, 2, 0, 1}
+	for f := 0; f < len(bare)+len(maclit)+*nshared; f++ {
 		fam := fmt.Sprintf("shared%d", f)
 		var tmpl *filt.DExpr
-		if f < len(bare) {
+		styled := false
+		switch {
+		case f < len(bare):
 			tmpl = bare[f]
-		} else {
+		case f < len(bare)+len(maclit):
+			tmpl = maclit[f-len(bare)]
+			styled = true
+		default:
 			tmpl = g.namedTree(2 + rng.Intn(2))
 		}
 		used := map[string]bool{}
@@ -827,7 +1111,8 @@ func main() {
 		sf := &sharedFam{twoFiles: f%2 == 1}
 		// every fourth family reaches the filter through a group-local macro function `cond` (expanded by irconv):
 		// the call is spelled identically in all groups, the bodies differ in their literal constants
-		macro := f%4 == 2
+		macro := f%4 == 2 || styled
+		negated := styled && f%2 == 1
 		// which names are file-level constants (shadowed by some groups only)
 		fileLevel := map[string]bool{}
 		fileVals := [2]map[string]nval{{}, {}}
@@ -883,18 +1168,39 @@ func main() {
 			prevVals = vals
 			d := inst(tmpl, vals)
 			whereSrc := ""
+			spelled := map[string]string{}
+			plain := true
 			if macro {
 				// (irconv cannot see constant values of identifiers inside a macro body: the body spells the literals)
-				d = literal(d)
+				d, plain = respell(d, rng, func(isStr bool) int {
+					switch {
+					case styled && isStr:
+						return styledStr[k]
+					case styled:
+						return styledInt[k]
+					case isStr:
+						return []int{0, 0, 1, 2}[rng.Intn(4)]
+					case rng.Intn(5) < 2:
+						return 0
+					}
+					return 1 + rng.Intn(nIntStyles-1)
+				}, spelled)
 				body := strings.NewReplacer(`m["x"]`, "x", `m["y"]`, "y", `m["zs"]`, "zs").Replace(d.Go())
 				locals = "\tcond := func(x, y, zs dsl.Var) bool { return " + body + " }\n"
 				whereSrc = `cond(m["x"], m["y"], m["zs"])`
+				if negated {
+					d = filt.Not(filt.Paren(d))
+					whereSrc = "!" + whereSrc
+				}
 			}
 			c := &ruleCase{K: "rule", Idx: len(cases), Family: fam, Role: fmt.Sprintf("g%d", k), Src: d.Go(), Coq: d.Coq(), Atom: -1, d: d, whereSrc: whereSrc,
 				Accept: []int{}, Locals: locals, FileNo: fileNo, FileConsts: sf.fileSrc[fileNo], Tree: oracleTree(d, atomIndex),
-				Values: map[string]string{}, wantJ: j, group: "shared", solo: false}
+				Values: map[string]string{}, wantJ: j, group: "shared", solo: false, MayRefuse: !plain}
 			for n, v := range vals {
 				c.Values[n] = v.golit()
+				if lit, ok := spelled[n]; ok && lit != v.golit() {
+					c.Values[n] = lit + "  (= " + v.golit() + ")"
+				}
 			}
 			if macro {
 				c.Src = whereSrc
@@ -946,20 +1252,18 @@ func main() {
 			}
 			return
 		}
-		reports, pmsg := hutil.Run(e, t, 0, "", nil)
 		idx := map[string]*ruleCase{}
 		for _, c := range batch {
 			idx[fmt.Sprintf("g%d", c.Idx)] = c
 		}
-		for _, r := range reports {
+		pmsg := runTargets(e, func(r hutil.Report, j, site int) {
 			c := idx[r.Group]
-			s := byPos[r.Pos]
-			if c == nil || s == nil || s.J != c.J {
+			if c == nil || j != c.J {
 				fmt.Fprintf(os.Stderr, "report cannot be attributed: %+v\n", r)
 				os.Exit(3)
 			}
-			c.Accept = append(c.Accept, s.I)
-		}
+			c.Accept = append(c.Accept, site)
+		})
 		if pmsg != "" {
 			for _, c := range batch {
 				c.Panic = pmsg
@@ -1029,27 +1333,32 @@ func main() {
 		if lerr != nil {
 			return accept, lerr.Error(), ""
 		}
-		reports, pmsg := hutil.Run(e, t, 0, "", nil)
-		for _, r := range reports {
+		pmsg := runTargets(e, func(r hutil.Report, j, site int) {
 			c := idx[r.Group]
-			s := byPos[r.Pos]
-			if c == nil || s == nil || s.J != c.J {
+			if c == nil || j != c.J {
 				fmt.Fprintf(os.Stderr, "report cannot be attributed: %+v\n", r)
 				os.Exit(3)
 			}
-			accept[c.Idx] = append(accept[c.Idx], s.I)
-		}
+			accept[c.Idx] = append(accept[c.Idx], site)
+		})
 		return accept, "", pmsg
 	}
 	for _, sf := range sharedFams {
-		acc, lerr, pmsg := runFiles(sf.members, sf.fileSrc)
-		for _, c := range sf.members {
-			c.Accept = append([]int{}, acc[c.Idx]...)
-			c.LoadErr, c.Panic = lerr, pmsg
-		}
+		var together []*ruleCase
 		for _, c := range sf.members {
 			a, le, pm := runFiles([]*ruleCase{c}, sf.fileSrc)
 			c.Alone = &aloneRes{Accept: append([]int{}, a[c.Idx]...), LoadErr: le, Panic: pm}
+			if le != "" && c.MayRefuse {
+				// a literal spelling the engine does not take: the group is refused, the others share the engine without it
+				c.Left, c.LoadErr = true, le
+				continue
+			}
+			together = append(together, c)
+		}
+		acc, lerr, pmsg := runFiles(together, sf.fileSrc)
+		for _, c := range together {
+			c.Accept = append([]int{}, acc[c.Idx]...)
+			c.LoadErr, c.Panic = lerr, pmsg
 		}
 	}
 
@@ -1064,7 +1373,7 @@ func main() {
 		Atoms  int    `json:"atoms"`
 		Panics []int  `json:"panic_atoms"`
 	}
-	m := meta{K: "meta", Sites: len(siteSpecs), W: W, Rules: len(cases), Atoms: len(g.atoms)}
+	m := meta{K: "meta", Sites: nSites, W: W, Rules: len(cases), Atoms: len(g.atoms)}
 	for i, a := range g.atoms {
 		if a.panics {
 			m.Panics = append(m.Panics, i)
